@@ -12,8 +12,7 @@ OVL=$($V/.bin/govis -repo /repo -cache $V/.ovl -shim $V/shim/vshim.go \
   ./data/... ./lexer/... ./node/... ./parser/... ./runtime/... ./std/... ./token/... ./utils/... | tail -1)
 [ -f "$OVL/overlay.json" ] || { echo "setup: instrumentation failed" >&2; exit 1; }
 rc=0
-for d in $V/checks/*/; do
-  id=$(basename $d)
+for id in $(jq -r '.checks[].property_id' $V/MANIFEST.json | tr 'A-Z' 'a-z'); do
   (cd $V && go build -overlay $OVL/overlay.json -o $V/.bin/$id ./checks/$id) || rc=1
 done
 # the plain CLI (used by the process-level clauses)
